@@ -794,15 +794,31 @@ func (x *Executor) load(st *State, a *Addr, reach string) Val {
 			v.Taint = lv.Taint
 		}
 	}
+	// well-formedness of a computed value holds on the paths that compute it
 	if wf := u.wfValue(t, a.Ty, 0); wf != "true" {
-		u.assume(wf)
+		if reach == "" || reach == "true" {
+			u.assume(wf)
+		} else {
+			u.assume(fmt.Sprintf("(=> %s %s)", reach, wf))
+		}
 	}
+	x.reachGuard = reach
 	x.assumeAllocatedFrom(st, v, a.Kind != "local")
+	x.reachGuard = ""
 	return v
 }
 
 // assumeAllocated: pointers read from a well-formed heap are nil or allocated.
 func (x *Executor) assumeAllocated(st *State, v Val) { x.assumeAllocatedFrom(st, v, false) }
+
+// assumeG: assumption guarded by the current reach condition (facts about computed values).
+func (x *Executor) assumeG(t string) {
+	if x.reachGuard == "" || x.reachGuard == "true" {
+		x.u.assume(t)
+		return
+	}
+	x.u.assume(fmt.Sprintf("(=> %s %s)", x.reachGuard, t))
+}
 
 // fromHeap: the value was read from a heap location (not a local, not a call result).
 func (x *Executor) assumeAllocatedFrom(st *State, v Val, fromHeap bool) {
@@ -819,19 +835,19 @@ func (x *Executor) assumeAllocatedFrom(st *State, v Val, fromHeap bool) {
 		}
 		sort.Strings(rs)
 		for _, r := range rs {
-			u.assume(fmt.Sprintf("(not (= (refroot %s) %s))", ref, r))
+			x.assumeG(fmt.Sprintf("(not (= (refroot %s) %s))", ref, r))
 		}
 	}
 	switch v.Ty.Underlying().(type) {
 	case *types.Pointer, *types.Map:
 		u.ensureAllocComp()
-		u.assume(fmt.Sprintf("(or (= %s 0) (select %s (refroot %s)))", v.T, x.heapGet(st, allocComp), v.T))
+		x.assumeG(fmt.Sprintf("(or (= %s 0) (select %s (refroot %s)))", v.T, x.heapGet(st, allocComp), v.T))
 		if fromHeap {
 			notFresh(v.T)
 		}
 	case *types.Slice:
 		u.ensureAllocComp()
-		u.assume(fmt.Sprintf("(or (= (s.base %s) 0) (select %s (refroot (s.base %s))))", v.T, x.heapGet(st, allocComp), v.T))
+		x.assumeG(fmt.Sprintf("(or (= (s.base %s) 0) (select %s (refroot (s.base %s))))", v.T, x.heapGet(st, allocComp), v.T))
 		if fromHeap {
 			notFresh(fmt.Sprintf("(s.base %s)", v.T))
 		}
